@@ -13,7 +13,7 @@ UNKNOWN = object()
 MAX_DEPTH = 12
 
 
-def call_function(cls_info, name: str, args: list, kwargs: dict, depth: int):
+def call_function(cls_info, name: str, args: list, kwargs: dict, depth: int, extra_env: dict | None = None):
 	"""value of the pure class method cls_info.<name>(*args, **kwargs)"""
 	f = cls_info.method(name) if cls_info is not None else None
 	if f is None or depth > MAX_DEPTH or any(a is UNKNOWN for a in args) or any(v is UNKNOWN for v in kwargs.values()):
@@ -23,7 +23,7 @@ def call_function(cls_info, name: str, args: list, kwargs: dict, depth: int):
 	if params and params[0] in ('cls', 'self'):
 		params = params[1:]
 	defaults = dict(zip(params[len(params) - len(a.defaults):], a.defaults)) if a.defaults else {}
-	env: dict[str, object] = {}
+	env: dict[str, object] = dict(extra_env or {})  # e.g. {'self.cause_line': 'x' * 20}: attribute reads the caller fixes
 	rest = list(args)
 	for p_ in params:
 		if rest:
@@ -49,10 +49,17 @@ def call_function(cls_info, name: str, args: list, kwargs: dict, depth: int):
 				return ('ret', _ev(f.node, st.value, env, depth + 1, cls_info, True) if st.value is not None else None)
 			if isinstance(st, (ast.Assign, ast.AnnAssign)) and st.value is not None:
 				tgt = st.targets[0] if isinstance(st, ast.Assign) else st.target
-				if not isinstance(tgt, ast.Name):
-					return ('ret', UNKNOWN)
-				env[tgt.id] = _ev(f.node, st.value, env, depth + 1, cls_info, True)
-				continue
+				v_ = _ev(f.node, st.value, env, depth + 1, cls_info, True)
+				if isinstance(tgt, ast.Name):
+					env[tgt.id] = v_
+					continue
+				if isinstance(tgt, (ast.Tuple, ast.List)) and all(isinstance(x, ast.Name) for x in tgt.elts) and isinstance(v_, (list, tuple)):
+					if len(v_) != len(tgt.elts):
+						return ('ret', UNKNOWN)  # would raise
+					for x, item in zip(tgt.elts, v_):
+						env[x.id] = item
+					continue
+				return ('ret', UNKNOWN)
 			if isinstance(st, ast.If):
 				t = _ev(f.node, st.test, env, depth + 1, cls_info, True)
 				if t is UNKNOWN:
@@ -74,12 +81,14 @@ def evaluate(fn_node: ast.AST, e: ast.AST, env: dict[str, object], dsn_cls=None,
 
 
 def _ev(fn_node: ast.AST, e: ast.AST, env: dict[str, object], depth: int, dsn_cls, local: bool):
+	own_method_cls = dsn_cls if local else None
+
 	def ev(x: ast.AST):
 		return _ev(fn_node, x, env, depth + 1, dsn_cls, local)
 
 	if depth > MAX_DEPTH:
 		return UNKNOWN
-	if not local:
+	if not local or isinstance(e, ast.Attribute):
 		src = unparse(e)
 		if src in env:
 			return env[src]
@@ -221,12 +230,22 @@ def _ev(fn_node: ast.AST, e: ast.AST, env: dict[str, object], depth: int, dsn_cl
 			return call_function(dsn_cls, fn.split('.', 1)[1], args, kwargs, depth + 1)
 		if fn == 'len' and len(args) == 1 and isinstance(args[0], (list, str, tuple)) and not kwargs:
 			return len(args[0])
-		if isinstance(e.func, ast.Attribute) and e.func.attr in ('startswith', 'endswith', 'count', 'split', 'join') and len(args) == 1 and not kwargs:
+		if isinstance(e.func, ast.Attribute) and e.func.attr in ('startswith', 'endswith', 'count', 'split', 'rsplit', 'join', 'partition', 'rpartition', 'strip', 'rstrip', 'lstrip', 'removesuffix', 'removeprefix', 'find', 'rfind', 'index', 'isdigit') and len(args) <= 2 and not kwargs:
 			recv = ev(e.func.value)
 			if isinstance(recv, str):
 				try:
-					return getattr(recv, e.func.attr)(args[0])
+					out = getattr(recv, e.func.attr)(*args)
 				except Exception:
 					return UNKNOWN
+				return list(out) if isinstance(out, tuple) else out
+		if fn in ('max', 'min') and len(args) >= 2 and not kwargs and all(isinstance(a, int) for a in args):
+			return max(args) if fn == 'max' else min(args)
+		if fn == 'int' and len(args) == 1 and not kwargs and isinstance(args[0], (str, int)):
+			try:
+				return int(args[0])
+			except Exception:
+				return UNKNOWN
+		if (local and fn.startswith(('self.', 'cls.'))) and own_method_cls is not None:
+			return call_function(own_method_cls, fn.split('.', 1)[1], args, kwargs, depth + 1)
 		return UNKNOWN
 	return UNKNOWN
